@@ -39,7 +39,7 @@ func genRacePlan(seed uint64, thorough bool) *Plan {
 			case 5:
 				add("COMMAND", g.pick("COUNT", "LIST"))
 			case 6:
-				add("SELECT", g.pick("0", "1", "0"))
+				add("SELECT", g.pick("0", "1", "0", "2"))
 			case 7:
 				add("MULTI")
 				add(g.concCmd(tk)...)
@@ -79,10 +79,15 @@ func genRacePlan(seed uint64, thorough bool) *Plan {
 			case 13:
 				items = append(items, Item{Op: "reconnect"})
 			case 14:
-				add("CLIENT", "UNBLOCK", "$id:"+strconv.Itoa(g.r.IntN(nc)))
+				if g.chance(3) {
+					// kills another connection (or itself): its goroutines end while
+					// the others carry on
+					add("CLIENT", "KILL", "ID", "$id:"+strconv.Itoa(g.r.IntN(nc)))
+				} else {
+					add("CLIENT", "UNBLOCK", "$id:"+strconv.Itoa(g.r.IntN(nc)))
+				}
 			case 15:
-				add(g.pick("FLUSHDB", "KEYS"), "*")
-				items[len(items)-1] = cmdItem(g.pick("FLUSHDB", "DBSIZE"))
+				add(g.pick("FLUSHDB", "FLUSHALL", "DBSIZE"))
 			case 16:
 				add(g.pick("EXPIRE", "PEXPIRE"), g.key(), "100")
 			case 17:
